@@ -390,6 +390,29 @@ def _own_steps(actions):
 # ------------------------------------------------------------------ pool-level operations that raise
 
 
+def harvest_part(chk):
+  """Registry.tla CIssue / CRefresh on the real client: a completed call is harvested by CourierClient._is_heartbeat_fresh
+  whenever somebody asks is_alive, possibly much later; what it records is the time the call was SENT."""
+  with installed() as (courier_utils, _, _):
+    for sent, harvested in ((10.0, 10.0), (10.0, 25.0), (10.0, 500.0)):
+      courier_utils._worker_registry = courier_utils.WorkerRegistry()
+      client = courier_utils.CourierClient(ADDR, call_timeout=5, heartbeat_threshold_secs=180)
+      VClock.now = sent
+      done = courier_utils.futures.Future()
+      done.set_result(None)
+      client._pendings.append(courier_utils.StateWithTime(done, courier_utils.time.time()))
+      VClock.now = harvested
+      fresh = client._is_heartbeat_fresh()
+      recorded = courier_utils._worker_registry.get(ADDR)
+      chk.replayed()
+      ctx = dict(kind='registry-harvest', sent=sent, harvested=harvested, recorded=recorded)
+      if recorded != sent:
+        chk.violation('registry:harvest-records-' + ('harvest-time' if recorded == harvested else 'other-time'),
+                      f'a call sent at t={sent} and harvested at t={harvested} is recorded as a sign of life at t={recorded}; Registry.tla records the send time', ctx)
+      elif fresh != (harvested - sent < 180):
+        chk.violation('registry:harvest-freshness', f'sent {sent}, harvested {harvested}, threshold 180: is_heartbeat_fresh() = {fresh}', ctx)
+
+
 def pool_ops_part(chk):
   """call_and_wait / run over the in-process transport with handlers that raise: afterwards the pool owns nothing."""
   from ml_metrics._src.chainables import courier_server, courier_worker, lazy_fns
@@ -471,6 +494,7 @@ def body(chk):
   d1 = registry_part(chk, rnd) or 0
   d2 = ownership_part(chk, rnd) or 0
   pool_ops_part(chk)
+  harvest_part(chk)
   chk.coverage['drift'] = d1 + d2
   chk.coverage['exhaustive'] = (d1 + d2 == 0)
   chk.assumptions += [
